@@ -169,6 +169,42 @@ fn repeated_same_length(ctx: &Ctx) {
     });
 }
 
+/// One output path written again and again with images that shrink and grow: the file holds the last image and
+/// nothing of the ones before it.
+fn shrinking_rewrites(ctx: &Ctx) {
+    for (k, which) in [Which::Code, Which::Eeprom].into_iter().enumerate() {
+        let path = scratch().join(format!("shrink_{}.hex", k));
+        let seq: [usize; 12] = [5000, 100, 0, 3000, 16, 70000, 1, 65536, 17, 0, 600, 15];
+        for (round, len) in seq.iter().enumerate() {
+            let len = if which == Which::Eeprom { (*len).min(65536) } else { *len };
+            let img = image(len, ctx.seed ^ 0x5A71 ^ (round as u64) << 20);
+            let br = BuildResult { code: if which == Which::Code { img.clone() } else { vec![] }, eeprom: if which == Which::Eeprom { img.clone() } else { vec![] }, flash_size: 4194304, eeprom_size: 65536, ram_size: 8388608, ram_filling: 0, messages: vec![] };
+            let p2 = path.clone();
+            let res = fw::guarded(|| match which {
+                Which::Code => avra_lib::writer::write_code_hex(p2, &br).map_err(|e| e.to_string()),
+                Which::Eeprom => avra_lib::writer::write_eeprom_hex(p2, &br).map_err(|e| e.to_string()),
+            });
+            ctx.eval(1);
+            ctx.count("rewrites_of_one_path_with_other_lengths", 1);
+            ctx.distinct(fw::mix64(0x5A71 + k as u64, round as u64));
+            let ok = match res {
+                Ok(Ok(())) => std::fs::read(&path).ok().and_then(|t| ihex::decode(&t).ok()).map(|d| ihex::compare(&d, &img).is_ok()).unwrap_or(false),
+                _ => false,
+            };
+            if !ok {
+                let wname = if which == Which::Code { "code" } else { "eeprom" };
+                ctx.violation(
+                    format!("hex/{}/rewrite-of-one-path/{}", wname, if round > 0 && len < seq[round - 1] { "shorter-than-before" } else { "longer-than-before" }),
+                    format!("write #{} to one path: a {}-byte {} image over a file that held {} bytes of image does not decode to the new image", round + 1, len, wname, if round > 0 { seq[round - 1] } else { 0 }),
+                    json!({"shrinking": true, "writer": wname, "len": len, "round": round}),
+                );
+                break;
+            }
+        }
+        let _ = std::fs::remove_file(&path);
+    }
+}
+
 fn lengths(ctx: &Ctx) -> (Vec<usize>, Vec<usize>, usize) {
     let max_flash_words = devices::table().iter().map(|(_, d)| d.flash_size).max().unwrap_or(131072) as usize;
     let max_flash = max_flash_words * 2;
@@ -309,17 +345,20 @@ pub fn run(ctx: &Ctx) -> i32 {
     });
     pipeline(ctx);
     repeated_same_length(ctx);
+    shrinking_rewrites(ctx);
     ctx.exhaustive.store(true, std::sync::atomic::Ordering::Relaxed);
     let _ = std::fs::remove_dir_all(scratch());
     fw::finish(
         ctx,
-        "write_code_hex and write_eeprom_hex called on synthetic BuildResults: every length 0..600 and every length within ±20 of each multiple of 64 KiB up to the largest flash in DEVICES and around 1 MiB / 2 MiB (EEPROM writer: up to 64 KiB) with position-dependent contents (thorough: + lengths ≡ 0,1,15 mod 16 below 4096, 10000 random lengths, 1 MiB and 8 MiB images, full pipeline); plus 15 lengths written six times each with different contents through one BuildResult patched in place and through fresh objects, code and EEPROM writer alternating; distinct_nontrivial = distinct (writer, length) pairs",
+        "write_code_hex and write_eeprom_hex called on synthetic BuildResults: every length 0..600 and every length within ±20 of each multiple of 64 KiB up to the largest flash in DEVICES and around 1 MiB / 2 MiB (EEPROM writer: up to 64 KiB) with position-dependent contents (thorough: + lengths ≡ 0,1,15 mod 16 below 4096, 10000 random lengths, 1 MiB and 8 MiB images, full pipeline); plus 15 lengths written six times each with different contents through one BuildResult patched in place and through fresh objects, code and EEPROM writer alternating; one path per writer rewritten 12 times with images that shrink and grow (5000, 100, 0, 3000, 16, 70000, 1, ... bytes); distinct_nontrivial = distinct (writer, length) pairs",
         &["refmodel/ihex.rs strict reader (self-tested on hand-made good and bad files)"],
     )
 }
 
 pub fn replay(ctx: &Ctx, case: &Value) -> i32 {
-    if case["repeated"].as_bool() == Some(true) {
+    if case["shrinking"].as_bool() == Some(true) {
+        shrinking_rewrites(ctx);
+    } else if case["repeated"].as_bool() == Some(true) {
         repeated_same_length(ctx);
     } else if let Some(src) = case["pipeline_source"].as_str() {
         let _ = src;
